@@ -8,6 +8,8 @@ for p in sorted(glob.glob(os.path.join(os.path.dirname(os.path.dirname(os.path.a
     det = "; ".join("%s: %s (%.0f s)" % (r["check"].replace("./check ", ""), r["verdict"], r["wall_s"]) for r in runs)
     h = (m.get("history") or [""])[0]
     first = "caught as written"
+    if m.get("superseded"):
+        det = "n/a"
     if h.startswith("NOT CAUGHT"):
         first = "NOT caught (stated limit)"
     elif h:
@@ -15,6 +17,8 @@ for p in sorted(glob.glob(os.path.join(os.path.dirname(os.path.dirname(os.path.a
     s = (m.get("summary") or "").replace("|", "/").replace("\n", " ")
     if len(s) > 170:
         s = s[:167] + "..."
+    if m.get("superseded"):
+        first += "; SUPERSEDED since: " + m["superseded"].split(":")[1].strip().split(",")[0]
     rows.append("| %s | %s | %s | %s |" % (m["id"], s, det, first))
 print("| id | change (author's summary) | own property's check, final harness | first contact |")
 print("|---|---|---|---|")
